@@ -1,0 +1,35 @@
+//go:build verif
+
+// Contracts for the deductive verifier in /verif (govc). Comments only.
+
+package middleware
+
+//@ pred sameBytes(s string, t string) = len(s) == len(t) && forall i int :: 0 <= i && i < len(s) ==> s[i] == t[i]
+
+// parseBasicAuth: accepted only if the scheme is "Basic " (any case, exactly 6
+// bytes), the rest is valid base64, and the decoded text contains a colon; user
+// and password are what precedes and follows the first colon.
+//@ func parseBasicAuth
+//@ property C04
+//@ modifies elems(byte)
+//@ ensures ok ==> len(auth) >= 6 && eqFold(auth[0:6], "Basic ") && b64ok(auth[6:len(auth)])
+//@ ensures ok ==> b64dec(auth[6:len(auth)]) == username + ":" + password && !contains(username, ":")
+//@ ensures !ok ==> username == "" && password == ""
+
+//@ func (*BasicAuth).BasicAuth
+//@ property C04
+//@ requires ba != nil && r != nil && r.Header != nil
+//@ modifies elems(byte)
+//@ ensures ok ==> len(hdrFirst(r.Header, canon(ba.header))) >= 6 && b64dec(hdrFirst(r.Header, canon(ba.header))[6:len(hdrFirst(r.Header, canon(ba.header)))]) == username + ":" + password
+//@ ensures hdrFirst(r.Header, canon(ba.header)) == "" ==> !ok
+
+//@ pred hdrFirst(h http.Header, k string) = ite((k in h) && len(h[k]) > 0, h[k][0], "")
+
+// L4.3: authenticated iff the header parses and user and password are, byte
+// for byte, the configured ones.
+//@ func (*BasicAuth).AuthenticatedRequest
+//@ property C04
+//@ requires ba != nil && r != nil && r.Header != nil
+//@ modifies elems(byte)
+//@ ensures result ==> len(hdrFirst(r.Header, canon(ba.header))) >= 6 && exists u string, p string :: b64dec(hdrFirst(r.Header, canon(ba.header))[6:len(hdrFirst(r.Header, canon(ba.header)))]) == u + ":" + p && sameBytes(u, expectedUser) && sameBytes(p, expectedPass)
+//@ ensures hdrFirst(r.Header, canon(ba.header)) == "" ==> !result
